@@ -15,9 +15,10 @@ cp demo.py "$out/demo.py" 2>/dev/null
 cp meta.json "$out/meta.json" 2>/dev/null
 echo "== suite with change"; PYTHONPATH="$wt/src" /venv/bin/python -m pytest -q -p no:cacheprovider --timeout=900 2>&1 | tail -1 | tee "$out/suite.txt"
 echo "== demo with change"; /venv/bin/python demo.py > "$out/demo_with.txt" 2>&1; echo "exit $?" | tee -a "$out/demo_with.txt"
-git stash -q
+# (no `git stash`: the stash is shared by all worktrees of a repository, concurrent runs would swap changes)
+git checkout -q -- src
 echo "== demo without change"; /venv/bin/python demo.py > "$out/demo_without.txt" 2>&1; echo "exit $?" | tee -a "$out/demo_without.txt"
-git stash pop -q
+git apply "$out/patch.diff"
 cd "$here"
 if ! git -C $R diff --quiet; then echo "/repo is dirty, refusing"; exit 2; fi
 git -C $R apply "$out/patch.diff" || { echo "patch does not apply to /repo"; exit 2; }
